@@ -42,7 +42,7 @@ theorem invN_init : InvN init := by
 @[simp] theorem pend_oi {k} {v} {c} : pend (.oi k v c) = [] := rfl
 @[simp] theorem pend_oiEv {k} {v} {c} : pend (.oiEv k v c) = [] := rfl
 @[simp] theorem pend_oiAdd {k} {v} {c} : pend (.oiAdd k v c) = [] := rfl
-@[simp] theorem pend_clr  : pend (.clr ) = [] := rfl
+@[simp] theorem pend_clr {a p} : pend (.clr a p) = [] := rfl
 @[simp] theorem pend_mLock {a} {b} {f} : pend (.mLock a b f) = [] := rfl
 @[simp] theorem pend_mDrain {m} {l} {a} : pend (.mDrain m l a) = [] := rfl
 @[simp] theorem pend_mAdmit {m} {ws} : pend (.mAdmit m ws) = [] := rfl
@@ -305,7 +305,8 @@ theorem invN_capMap {c : Cfg} {s s' : State} {t : Nat} {sent : Bool} (hi : InvN 
 
 theorem invN_step {c : Cfg} {s s' : State} {t : Nat} {l : Label} (hi : InvN s) (h : step c s t l = some s') :
     InvN s' := by
-  cases l <;> simp only [step] at h
+  replace h := step_step0 h
+  cases l <;> simp only [step0] at h
   case call op a => invn_step hi h stepCall
   case advance d => simp at h; subst h; exact ⟨hi.rem_lt, hi.not_sub, hi.not_nodup, hi.pend_sub, hi.pend_fresh, hi.pend_nodup, hi.pend_disj⟩
   case read => invn_step hi h stepRead
@@ -324,6 +325,8 @@ theorem invN_step {c : Cfg} {s s' : State} {t : Nat} {l : Label} (hi : InvN s) (
   case oiEv => invn_step hi h stepOiEv
   case oiAdd => invn_step hi h stepOiAdd
   case clear => invn_step hi h stepClear
+  case clrAcq i => invn_step hi h stepClrAcq
+  case clrGet i => invn_step hi h stepClrGet
   case mLock => invn_step hi h stepMLock
   case recv => invn_step hi h stepRecv
   case admit d => invn_step hi h stepAdmit
